@@ -19,7 +19,7 @@
 From Coq Require Import ZArith List Bool String.
 From V Require Import Base.Int Base.IO Base.Utf8 Model.Scan Model.Rfc3339 Model.Parse Model.FromStr Model.Show Model.DateTime
   Spec.Gregorian Proofs.Scan Proofs.Decimal Proofs.C09Show Proofs.C09Time Proofs.C09Date Proofs.C09DateTime Proofs.C09Zoned
-  Proofs.C09Shape Proofs.C09.
+  Proofs.C09Shape Proofs.C09Holds Proofs.C09 Model.C09.
 From V Require Model.C19 Model.Parsed Model.Date Model.Time Judge.C09 Proofs.Date.
 Import ListNotations.
 Open Scope Z_scope.
@@ -154,6 +154,56 @@ Theorem C09_to_naive_date_ymd : forall p y m dd,
   Model.Parsed.to_naive_date p = Val (Model.Parsed.Ok (mk_ymd y m dd)).
 Proof. exact to_naive_date_ymd. Qed.
 Print Assumptions C09_to_naive_date_ymd.
+
+(** * C09_holds: the dispatcher ([Model.C09.run], what `modelrun` executes and the correspondence run
+    compares with the implementation) gives, on every case of the property's domain as the judge
+    states it (Judge/C09.v), the documented text for [tx.show] and the value itself for [tx.rt];
+    on the two recorded findings it gives the implementation's error.  [form_ok form]: form is 0
+    (Display) or 1 (Debug). *)
+Theorem C09_holds_date : forall y o form, Judge.C09.valid_date y o = true -> form_ok form ->
+  run B"tx.show" [VInt 0; VInt form; VTup [VInt y; VInt o]] = VStr (Judge.C09.date_text y o) /\
+  run B"tx.rt" [VInt 0; VInt form; VTup [VInt y; VInt o]] = VTup [VInt y; VInt o].
+Proof. exact holds_date. Qed.
+Print Assumptions C09_holds_date.
+Theorem C09_holds_time : forall s f form, Judge.C09.valid_time s f = true -> Judge.C09.time_in_domain s f = true -> form_ok form ->
+  run B"tx.show" [VInt 1; VInt form; VTup [VInt s; VInt f]] = VStr (Judge.C09.time_text s f) /\
+  run B"tx.rt" [VInt 1; VInt form; VTup [VInt s; VInt f]] = VTup [VInt s; VInt f].
+Proof. exact holds_time. Qed.
+Print Assumptions C09_holds_time.
+(* NaiveDateTime: Debug round trips; Display is the finding (err:Invalid for every value) *)
+Theorem C09_holds_ndt : forall y o s f, Judge.C09.valid_date y o = true -> Judge.C09.valid_time s f = true ->
+  Judge.C09.time_in_domain s f = true ->
+  let v := VTup [VInt y; VInt o; VInt s; VInt f] in
+  run B"tx.show" [VInt 2; VInt 1; v] = VStr (Judge.C09.date_text y o ++ B"T" ++ Judge.C09.time_text s f) /\
+  run B"tx.show" [VInt 2; VInt 0; v] = VStr (Judge.C09.date_text y o ++ B" " ++ Judge.C09.time_text s f) /\
+  run B"tx.rt" [VInt 2; VInt 1; v] = v /\
+  run B"tx.rt" [VInt 2; VInt 0; v] = VErr B"Invalid".
+Proof. exact holds_ndt. Qed.
+Print Assumptions C09_holds_ndt.
+(* DateTime<FixedOffset> (ty 3) and DateTime<Utc> (ty 4, offset 0), wall-clock date in range *)
+Theorem C09_holds_dt : forall y o s f off ty form, Judge.C09.valid_date y o = true -> Judge.C09.valid_time s f = true ->
+  Judge.C09.time_in_domain s f = true -> Judge.C09.valid_offset off = true -> off mod 60 = 0 ->
+  (ty = 3 \/ (ty = 4 /\ off = 0)) -> form_ok form -> wall_ok y o s off = true ->
+  let v := VTup [VInt y; VInt o; VInt s; VInt f; VInt off] in
+  (exists t, Judge.C09.spec_text ty form v = Judge.C09.InDom t /\ run B"tx.show" [VInt ty; VInt form; v] = VStr t) /\
+  run B"tx.rt" [VInt ty; VInt form; v] = v.
+Proof. exact holds_dt. Qed.
+Print Assumptions C09_holds_dt.
+Theorem C09_holds_fixed_offset : forall off form, -86400 < off < 86400 -> off mod 60 = 0 -> form_ok form ->
+  exists t, Judge.C09.spec_text 5 form (VInt off) = Judge.C09.InDom t /\
+            run B"tx.show" [VInt 5; VInt form; VInt off] = VStr t /\ run B"tx.rt" [VInt 5; VInt form; VInt off] = VInt off.
+Proof. exact holds_fixed_offset. Qed.
+Print Assumptions C09_holds_fixed_offset.
+Theorem C09_holds_weekday : forall w form, 0 <= w <= 6 -> form_ok form ->
+  exists t, Judge.C09.spec_text 6 form (VInt w) = Judge.C09.InDom t /\
+            run B"tx.show" [VInt 6; VInt form; VInt w] = VStr t /\ run B"tx.rt" [VInt 6; VInt form; VInt w] = VInt w.
+Proof. exact holds_weekday. Qed.
+Print Assumptions C09_holds_weekday.
+Theorem C09_holds_month : forall m, 1 <= m <= 12 ->
+  exists t, Judge.C09.spec_text 7 1 (VInt m) = Judge.C09.InDom t /\
+            run B"tx.show" [VInt 7; VInt 1; VInt m] = VStr t /\ run B"tx.rt" [VInt 7; VInt 1; VInt m] = VInt m.
+Proof. exact holds_month. Qed.
+Print Assumptions C09_holds_month.
 
 (** * the hypotheses are inhabited *)
 Example C09_ex_date : repr (-262143) 1 (mkdate (-262143) 1) /\ repr 10000 366 (mkdate 10000 366).
